@@ -1,4 +1,4 @@
-"""C20 -- completion proposals (clauses R20.1-R20.17)."""
+"""C20 -- completion proposals (clauses R20.1-R20.18)."""
 from __future__ import annotations
 
 import ast
@@ -21,6 +21,7 @@ EXPLANATION = (
 EXPLANATION += ' R20.15: the returned prefix is cut from the start offset that is returned.'
 EXPLANATION += ' R20.13: identifier characters.  R20.14: an object expression is split off only behind a character found to be a dot.'
 EXPLANATION += " R20.16: in the anchored modules and the shared text utilities no source text is cut with str.splitlines() (it breaks at form feed, \x1c-\x1e, \x85, U+2028/9; rope's and the ast's line numbers count \n only)."
+EXPLANATION += " R20.18: every while loop that steps an index forward through a text compares the index with the length in its test."
 ASSUMPTIONS = ["proposal name is the first constructor argument"]
 
 PROPOSALS = {"CompletionProposal", "NamedParamProposal"}
@@ -399,6 +400,9 @@ def check(ctx, res) -> None:
     from .common import line_model_rule as _lm
 
     _lm(ctx, res, "R20.16", ('rope.contrib.codeassist', 'rope.contrib.fixsyntax', 'rope.contrib.findit', 'rope.base.worder', 'rope.base.evaluate'))
+    from .common import bounded_scan_rule as _bs
+
+    _bs(ctx, res, "R20.18")
 
 
 def _dot_is_looked_at_rule(ctx, res) -> None:
